@@ -1,6 +1,7 @@
 /-
   Driver/Syntax.lean — protocol commands for lexing, parsing, rule parsing and rendering (C06–C08, C14, C16).
 -/
+import RevalModel.Spec.Printer
 import Driver.Codec
 import RevalModel.Impl.Display
 import RevalModel.Impl.RuleParse
@@ -37,7 +38,17 @@ def handleLex (text : String) : String :=
 
 def handleParse (text oracle : String) : String :=
   match unhex text, parse oracle >>= decOracle with
-  | some s, some o => encPR encExpr (parseExprText o s)
+  | some s, some o =>
+    let r := encPR encExpr (parseExprText o s)
+    -- the theorems about the parser hold for every sufficiently large fuel: re-parse with four times the fuel
+    match lex s with
+    | none => r
+    | some ts =>
+      let big : PR Expr := match pIf o (4 * parseFuel ts + 100) ts with
+        | .ok e [] => .ok e []
+        | .ok _ (_ :: _) => .error
+        | other => other
+      if encPR encExpr big == r then r else "(fuel-sensitive " ++ r ++ ")"
   | _, _ => "bad-request parse"
 
 def handleParseRule (text oracle : String) : String :=
@@ -80,5 +91,20 @@ def handleDisplay (e oracle : String) : String :=
         | _ => []
       hex (Disp.showExpr showF e)
   | _, _ => "bad-request display"
+
+/-- does the text the model prints lex to exactly the token list the round-trip theorem is about (`G.dispToks`)? -/
+def handleDispToks (e oracle : String) : String :=
+  match parse e >>= decExpr, parse oracle >>= decOracle with
+  | some e, some o =>
+    match (floatsOf e).find? (fun f => (o .f64Show [.float f]).isNone) with
+    | some f => "(frontier f64.show " ++ encValue (.float f) ++ ")"
+    | none =>
+      let showF : F64 → Str := fun f => match o .f64Show [.float f] with
+        | some (some (.str s)) => s
+        | _ => []
+      match lex (Disp.showExpr showF e) with
+      | some ts => if ts == G.dispToks showF e then "(toks-same)" else "(toks-differ)"
+      | none => "(toks-differ)"
+  | _, _ => "bad-request disptoks"
 
 end Reval.Codec
